@@ -107,4 +107,12 @@ PROPS = {
         "assumptions": COMMON_ASSUME,
         "trusted_base": [MODEL_FILES],
     },
+    "C20": {
+        "suites": "ZERO,KAC,STRUCT,DATA,MAP",
+        "gen": True,
+        "assumptions": COMMON_ASSUME + [
+            "the zero-value half is complete (finite domain enumerated by reflection on every run); the failed-parse half is explored by the generated truncations/mutations, not proved",
+        ],
+        "trusted_base": ["exhaustive reflective sweep `harness observe` (Gen/Observed.lean) and the API translator /verif/extract (Gen/Api.lean)"],
+    },
 }
